@@ -72,8 +72,9 @@ def centre_of_gravity(img, threshold=0, min_threshold=0, **kwargs):
             thres = numpy.max((threshold*img.max(), min_threshold))
             img = numpy.where(img > thres, img - thres, 0)
         else:
-            thres = numpy.maximum(threshold*img.max(-1).max(-1), [min_threshold]*img.shape[0])
-            img_temp = (img.T - thres).T
+            # one level per frame, whatever the number of leading (stack) axes
+            thres = numpy.maximum(threshold*img.max(-1).max(-1), min_threshold)
+            img_temp = img - thres[..., None, None]
             img = numpy.where(img_temp > 0, img_temp, 0)
 
     if len(img.shape) == 2:
